@@ -257,7 +257,9 @@ func checkC14(prop, tier string) int {
 		jobs = append(jobs, Job{Kind: "c14", Data: mustJSON(c14Job{From: from, To: from + 16, Tier: tier})})
 	}
 	pool := NewPool()
+	pool.Deadline = time.Now().Add(g4Deadline(tier))
 	results := pool.Run(jobs)
+	skippedByDeadline := countSkipped(results)
 	var tot c14Res
 	tot.Hops = map[int]int{}
 	infra := 0
@@ -313,7 +315,8 @@ func checkC14(prop, tier string) int {
 			"distinct_nontrivial":           tot.Indexed,
 			"rule":                          "all non-empty subsets of a 10-key universe x index quota 1..60 x minKeyBytes {0,total,total+1} x every probe: the real findKeyPos/findStartKeyInclusivePos on a segment indexed exactly as on load, against a sorted-slice model; plus the public path (persist, reopen with each SegmentKeysIndexMaxBytes, compare every Get and range with the no-index open; for part of the key sets also with merge operands on every second key, which a plain persistence round writes unresolved). states/distinct_nontrivial = (key set, quota, minKeyBytes) combinations for which an index was actually built",
 			"samples":                       samples,
-			"exhaustive":                    infra == 0,
+			"exhaustive":                    infra == 0 && skippedByDeadline == 0,
+			"cap_hit":                       fmt.Sprintf("%d of %d jobs skipped by the deadline of %v", skippedByDeadline, len(jobs), g4Deadline(tier)),
 			"key_sets":                      tot.Sets,
 			"in_package_cases":              tot.InPkgCases,
 			"public_path_cases":             tot.PublicCases,
